@@ -70,7 +70,12 @@ def run_case(args):
         rc, out, results = core.run_property(pid, "quick", None, tmp, write_evidence=False, quiet=True)
         viol = [r for r in results if r.status == core.VIOLATION and not r.note]
         want = case["expect"]
-        if want == "VIOLATION":
+        if want == "NOT-SILENT":
+            # a breaking edit that rewrites the function beyond a first-order edit while only a spelling-based rule covers the clause: the
+            # rewrite gate may turn the finding into ANALYSIS-ERROR; what must never happen is a silent pass
+            ok = rc in (1, 2)
+            detail = "exit %d %s" % (rc, "; ".join("%s %s" % (r.rule, r.func) for r in viol))
+        elif want == "VIOLATION":
             ok = rc == 1 and any((case.get("rule") in (None, r.rule)) and (case.get("func") in (None, r.func)) for r in viol)
             detail = "; ".join("%s %s" % (r.rule, r.func) for r in viol) or "exit %d" % rc
         else:
@@ -85,7 +90,7 @@ def run(pid, jobs=None):
     cases = corpus_for(pid)
     jobs = jobs or min(16, max(1, len(cases)))
     fired = silent = skipped = 0
-    n_break = sum(1 for c in cases if c["expect"] == "VIOLATION")
+    n_break = sum(1 for c in cases if c["expect"] in ("VIOLATION", "NOT-SILENT"))
     n_keep = len(cases) - n_break
     misses = []
     rows = []
@@ -99,7 +104,7 @@ def run(pid, jobs=None):
         if status == "skipped":
             skipped += 1
         elif status == "ok":
-            if c["expect"] == "VIOLATION":
+            if c["expect"] in ("VIOLATION", "NOT-SILENT"):
                 fired += 1
             else:
                 silent += 1
